@@ -11,13 +11,15 @@
 (* before the scenario), N (never existed), S1 (P1's number and serial     *)
 (* with the creation of another incarnation of the node) and F1 (P1's      *)
 (* number and serial on another node's name): four recipients that do not  *)
-(* exist here; one outstanding remote call.                                *)
+(* exist here, and Z, a process that has just ended: its entry is still in *)
+(* the process table but its mailbox is closed (the window between a       *)
+(* process task's end and its removal); one outstanding remote call.       *)
 (* A local operation may terminate P2 between frames.                      *)
 (***************************************************************************)
 EXTENDS Integers, Sequences, FiniteSets, TLC
 CONSTANT MaxFrames
 Procs == {"P1", "P2"}
-Targets == {"P1", "P2", "D", "N", "S1", "F1"}
+Targets == {"P1", "P2", "D", "N", "S1", "F1", "Z"}
 Names == {"alpha", "ghost"}
 Good == {"send_pid", "send_name", "exit", "monitor_exit", "rpc_reply"}
 Junk == {"tick", "unknown_control", "generic_control", "undecodable", "wrong_marker", "bad_control", "control_not_tuple", "empty_tuple_control", "truncated_term"}
